@@ -1163,6 +1163,37 @@ class Body:
                     work.append((u, (not tr) if neg else tr, dp + 1))
         return out
 
+    def implied_guards(self, b, expand_vars=False, _depth=0, _seen=None):
+        """guards(b) plus what a named boolean implies: after `let ok = match x { Some(v) => a.eq(v), None => false }; if !ok { continue }`
+        the guard `ok == true` can only come from the assignment in the `Some` arm, so the guards of THAT assignment (x is Some)
+        and its value (a == v) hold as well.  Returns (switch block, edge values, condition term) triples like guards()."""
+        out = list(self.guards(b, expand_vars))
+        if _depth > 3:
+            return out
+        _seen = _seen or set()
+        for s_, vals, term in list(out):
+            atom, truth = cond_atoms(self.switch_term(s_, False), vals)
+            a = strip_refs(atom)
+            if a[0] != "var" or truth is None or len(a) < 3 or self.locals[a[2]] != "bool" or a[2] in _seen:
+                continue
+            cons = []
+            for (bi, si, rv, lhs) in self.defs().get(a[2], ()):
+                if len(lhs) != 1 or self.blocks[bi]["cl"]:
+                    continue
+                u = strip_refs(self.def_term(bi, si, rv, 0))
+                if u[0] == "const" and u[1] in (True, False):
+                    if u[1] == truth:
+                        cons.append((bi, None))
+                    continue
+                cons.append((bi, (si, rv)))
+            if len(cons) == 1 and cons[0][1] is not None:
+                bi, (si, rv) = cons[0]
+                # the value of the boolean is the condition computed there
+                vt = self.def_term(bi, si, rv, 0, expand_vars)
+                out.append((bi, [1] if truth else [0], vt))
+                out += self.implied_guards(bi, expand_vars, _depth + 1, _seen | {a[2]})
+        return out
+
     def edge_label(self, s, vals):
         """human label of a guard edge"""
         term = self.switch_term(s)
